@@ -60,30 +60,43 @@ def Stops : List Tok → Prop
   | .punct ',' :: _ | .punct ';' :: _ | .punct ')' :: _ | .ident "or" :: _ => True
   | _ => False
 
+/-- `WF` is the proof-side `WFx`. -/
+theorem wfx_of_WF : ∀ e, WF e → WFx e := by
+  intro e
+  induction e with
+  | term t => exact id
+  | paren e ih => exact ih
+  | neg e ih => exact fun h => ⟨ih h.1, h.2⟩
+  | bin op l r ihl ihr => exact fun h => ⟨ihl h.1, ihr h.2.1, h.2.2.1, h.2.2.2⟩
+  | method op recv arg ihr iha => exact fun h => ⟨h.1, ihr h.2.1, iha h.2.2.1, h.2.2.2⟩
+  | length recv ih => exact fun h => ⟨ih h.1, h.2⟩
+
+theorem follow_of_Stops {rest : List Tok} (hr : Stops rest) : Follow 0 rest := by
+  unfold Stops at hr
+  split at hr
+  · simp [Follow, orStop, andStop, cmpStop, addStop, mulStop, dotStop]
+  all_goals first
+    | exact absurd hr id
+    | simp [Follow, orStop, andStop, cmpStop, addStop, mulStop, dotStop, cmpOfTok, addOfTok, mulOfTok]
+
+/-- The round trip with the fuel counted by `Grammar.esize` (a signed integer literal `-5`,
+two tokens, counts as one; never more than the number of tokens: `esize_le_length`). -/
+theorem parse_render_partial_size (e : PExpr) (h : WF e) (rest : List Tok) (hr : Stops rest)
+    (fuel : Nat) (hf : fuel ≥ 16 * esize e + 16) :
+    parseOr fuel (renderToks e ++ rest) = some (e, rest) :=
+  parseOr_render_size e (wfx_of_WF e h) rest (follow_of_Stops hr) fuel (by omega)
+
 /-- **C14 (expressions), token level.** Every well-formed tree, rendered with the minimum
 of parentheses, parses back to itself — for all nestings and depths — and the parser stops
 exactly at the end of the expression. This is what "structured by the documented
-precedence and associativity" means. -/
+precedence and associativity" means.  Signed integer literals (`PTerm.negInt`, rendered
+`-` digits) are ordinary atoms: `1 - -5` renders to `1`, `-`, `-`, `5` and reads back as the
+subtraction of the literal `-5`. -/
 theorem parse_render_partial (e : PExpr) (h : WF e) (rest : List Tok) (hr : Stops rest)
     (fuel : Nat) (hf : fuel ≥ 16 * (renderToks e).length + 16) :
-    parseOr fuel (renderToks e ++ rest) = some (e, rest) := by
-  have hwf : ∀ e, WF e → WFx e := by
-    intro e
-    induction e with
-    | term t => exact id
-    | paren e ih => exact ih
-    | neg e ih => exact fun h => ⟨ih h.1, h.2⟩
-    | bin op l r ihl ihr => exact fun h => ⟨ihl h.1, ihr h.2.1, h.2.2.1, h.2.2.2⟩
-    | method op recv arg ihr iha => exact fun h => ⟨h.1, ihr h.2.1, iha h.2.2.1, h.2.2.2⟩
-    | length recv ih => exact fun h => ⟨ih h.1, h.2⟩
-  have hfo : Follow 0 rest := by
-    unfold Stops at hr
-    split at hr
-    · simp [Follow, orStop, andStop, cmpStop, addStop, mulStop, dotStop]
-    all_goals first
-      | exact absurd hr id
-      | simp [Follow, orStop, andStop, cmpStop, addStop, mulStop, dotStop, cmpOfTok, addOfTok, mulOfTok]
-  exact parseOr_render e (hwf e h) rest hfo fuel (by omega)
+    parseOr fuel (renderToks e ++ rest) = some (e, rest) :=
+  parse_render_partial_size e h rest hr fuel (by
+    have := esize_le_length e (wfx_of_WF e h); omega)
 
 /-- Emission: operands left to right, operator after its operands, `Parens` after a
 parenthesised subtree (the postfix of the rendered-and-parsed tree is the postfix of the tree). -/
@@ -104,11 +117,11 @@ theorem mul_over_add (a b c : PTerm) (ha : AtomTermWF a) (hb : AtomTermWF b) (hc
     have tb : TermWF b := termOK_of_atomOK hb
     have tc : TermWF c := termOK_of_atomOK hc
     simp [WF, level, ta, tb, tc]
-  have := parse_render_partial _ hw [] trivial 100 (by
-    have := length_renderTermToks_atom (t := a) ha
-    have := length_renderTermToks_atom (t := b) hb
-    have := length_renderTermToks_atom (t := c) hc
-    simp [renderToks, binTok] at *; omega)
+  have := parse_render_partial_size _ hw [] trivial 100 (by
+    have := esize_term_atom (t := a) ha
+    have := esize_term_atom (t := b) hb
+    have := esize_term_atom (t := c) hc
+    simp only [esize, *]; omega)
   simpa [renderToks, binTok, atomTok] using this
 
 theorem sub_left_assoc (a b c : PTerm) (ha : AtomTermWF a) (hb : AtomTermWF b) (hc : AtomTermWF c) :
@@ -119,11 +132,11 @@ theorem sub_left_assoc (a b c : PTerm) (ha : AtomTermWF a) (hb : AtomTermWF b) (
     have tb : TermWF b := termOK_of_atomOK hb
     have tc : TermWF c := termOK_of_atomOK hc
     simp [WF, level, ta, tb, tc]
-  have := parse_render_partial _ hw [] trivial 100 (by
-    have := length_renderTermToks_atom (t := a) ha
-    have := length_renderTermToks_atom (t := b) hb
-    have := length_renderTermToks_atom (t := c) hc
-    simp [renderToks, binTok] at *; omega)
+  have := parse_render_partial_size _ hw [] trivial 100 (by
+    have := esize_term_atom (t := a) ha
+    have := esize_term_atom (t := b) hb
+    have := esize_term_atom (t := c) hc
+    simp only [esize, *]; omega)
   simpa [renderToks, binTok, atomTok] using this
 
 theorem and_over_or (a b c : PTerm) (ha : AtomTermWF a) (hb : AtomTermWF b) (hc : AtomTermWF c) :
@@ -134,11 +147,11 @@ theorem and_over_or (a b c : PTerm) (ha : AtomTermWF a) (hb : AtomTermWF b) (hc 
     have tb : TermWF b := termOK_of_atomOK hb
     have tc : TermWF c := termOK_of_atomOK hc
     simp [WF, level, ta, tb, tc]
-  have := parse_render_partial _ hw [] trivial 100 (by
-    have := length_renderTermToks_atom (t := a) ha
-    have := length_renderTermToks_atom (t := b) hb
-    have := length_renderTermToks_atom (t := c) hc
-    simp [renderToks, binTok] at *; omega)
+  have := parse_render_partial_size _ hw [] trivial 100 (by
+    have := esize_term_atom (t := a) ha
+    have := esize_term_atom (t := b) hb
+    have := esize_term_atom (t := c) hc
+    simp only [esize, *]; omega)
   simpa [renderToks, binTok, atomTok] using this
 
 theorem cmp_over_and (a b c : PTerm) (ha : AtomTermWF a) (hb : AtomTermWF b) (hc : AtomTermWF c) :
@@ -149,11 +162,11 @@ theorem cmp_over_and (a b c : PTerm) (ha : AtomTermWF a) (hb : AtomTermWF b) (hc
     have tb : TermWF b := termOK_of_atomOK hb
     have tc : TermWF c := termOK_of_atomOK hc
     simp [WF, level, ta, tb, tc]
-  have := parse_render_partial _ hw [] trivial 100 (by
-    have := length_renderTermToks_atom (t := a) ha
-    have := length_renderTermToks_atom (t := b) hb
-    have := length_renderTermToks_atom (t := c) hc
-    simp [renderToks, binTok] at *; omega)
+  have := parse_render_partial_size _ hw [] trivial 100 (by
+    have := esize_term_atom (t := a) ha
+    have := esize_term_atom (t := b) hb
+    have := esize_term_atom (t := c) hc
+    simp only [esize, *]; omega)
   simpa [renderToks, binTok, atomTok] using this
 
 theorem not_over_mul (a b : PTerm) (ha : AtomTermWF a) (hb : AtomTermWF b) :
@@ -163,10 +176,10 @@ theorem not_over_mul (a b : PTerm) (ha : AtomTermWF a) (hb : AtomTermWF b) :
     have ta : TermWF a := termOK_of_atomOK ha
     have tb : TermWF b := termOK_of_atomOK hb
     simp [WF, level, ta, tb]
-  have := parse_render_partial _ hw [] trivial 100 (by
-    have := length_renderTermToks_atom (t := a) ha
-    have := length_renderTermToks_atom (t := b) hb
-    simp [renderToks, binTok] at *; omega)
+  have := parse_render_partial_size _ hw [] trivial 100 (by
+    have := esize_term_atom (t := a) ha
+    have := esize_term_atom (t := b) hb
+    simp only [esize, *]; omega)
   simpa [renderToks, binTok, atomTok] using this
 
 theorem method_binds_tightest (a b : PTerm) (ha : AtomTermWF a) (hb : AtomTermWF b) :
